@@ -300,7 +300,7 @@ contract(
     ensures={"emits_monitor_emit":
              "result == self._format(self.template.method('monitor_values', ', '.join(" + _ARGS + "), "
              "self._state_assignments(F.states, False), self._parameter_assignments(F.parameters), "
-             "monitor_emit(SA, len(SA)), F.return_name, F.num_return_values, "
+             "monitor_emit(SA, len(SA)), F.return_name, len(self.ode.intermediates) + len(self.ode.state_derivatives), "
              "self._shape_info(len(self.ode.intermediates) + len(self.ode.state_derivatives)), 'numpy.zeros(shape)', self._missing_variables_assignments()))"},
     loops={0: {"invariant": {"values": "values_lst == monitor_emit(SA, k)", "slot": "index == count_mon(SA, k)"},
                "types": {"values_lst": "Seq[Stmt]"}}},
@@ -392,3 +392,58 @@ def finalize_enums2():
 
 
 finalize_enums2()
+
+# ----------------------------------------------------------------------------------------------- missing_values
+defspec("in_count", {"P": "Seq[Atom]", "VALS": "Dict[Name,Int]", "j": "Int"}, "Int", """
+def in_count(P, VALS, j):
+    if j <= 0:
+        return 0
+    if P[j - 1].name in VALS:
+        return in_count(P, VALS, j - 1) + 1
+    return in_count(P, VALS, j - 1)
+""")
+defspec("mv_pre", {"P": "Seq[Atom]", "VALS": "Dict[Name,Int]", "j": "Int"}, "Seq[Stmt]", """
+def mv_pre(P, VALS, j):
+    if j <= 0:
+        return empty("Seq[Stmt]")
+    if P[j - 1].name in VALS:
+        return mv_pre(P, VALS, j - 1) + [Assign(Indexed("values", VALS[P[j - 1].name]), P[j - 1].symbol, False)]
+    return mv_pre(P, VALS, j - 1)
+""")
+defspec("mv_broken", {"SA": "Seq[Atom]", "VALS": "Dict[Name,Int]", "n0": "Int", "N": "Int", "j": "Int"}, "Bool", """
+def mv_broken(SA, VALS, n0, N, j):
+    if j <= 0:
+        return False
+    return mv_broken(SA, VALS, n0, N, j - 1) or n0 + in_count(SA, VALS, j) >= N
+""")
+defspec("mv_emit", {"SA": "Seq[Atom]", "VALS": "Dict[Name,Int]", "n0": "Int", "N": "Int", "j": "Int"}, "Seq[Stmt]", """
+def mv_emit(SA, VALS, n0, N, j):
+    if j <= 0:
+        return empty("Seq[Stmt]")
+    if mv_broken(SA, VALS, n0, N, j - 1):
+        return mv_emit(SA, VALS, n0, N, j - 1)
+    x = SA[j - 1]
+    head = mv_emit(SA, VALS, n0, N, j - 1) + [Assign(x.symbol, x.expr, True)]
+    if x.name in VALS:
+        return head + [Assign(Indexed("values", VALS[x.name]), x.symbol, False)]
+    return head
+""")
+
+contract(
+    B + "missing_values", params={"self": "CG", "values": "Dict[Name,Int]", "order": "Enum:RHSArgument"}, ret="Text",
+    raises=RAISES, requires=[CGWF, "WF(self.ode)"], enum_params={"order": "RHSArgument:2"},
+    where={"F": "self._rhs_arguments(order)", "SA": "self.ode.sorted_assignments(True, False)",
+           "P": "self.ode.states + self.ode.parameters", "N0": "in_count(P, values, len(P))"},
+    ensures={"requested_names_written_to_their_requested_slot":
+             "result == self._format(self.template.method('missing_values', ', '.join(" + _ARGS + "), "
+             "self._state_assignments(F.states, False), self._parameter_assignments(F.parameters), "
+             "mv_pre(P, values, len(P)) + mv_emit(SA, values, N0, len(values), len(SA)), F.return_name, len(values), "
+             "self._shape_info(len(values)), 'numpy.zeros(shape)', self._missing_variables_assignments()))"},
+    loops={0: {"invariant": {"pre": "values_lst == mv_pre(P, values, k)", "n": "n == in_count(P, values, k)"},
+               "types": {"values_lst": "Seq[Stmt]"}},
+           1: {"invariant": {"emit": "values_lst == mv_pre(P, values, len(P)) + mv_emit(SA, values, N0, len(values), k)",
+                             "n": "n == N0 + in_count(SA, values, k)",
+                             "not_broken": "not mv_broken(SA, values, N0, len(values), k)"}}},
+    uses=[("C13.frozen_after_break", {"SA": "SA", "VALS": "values", "n0": "N0", "N": "len(values)", "i": "k + 1", "j": "len(SA)"})],
+    properties=("C13", "C03"),
+)
